@@ -24,8 +24,19 @@ BusAdd(b, x) == [b EXCEPT !.p = <<x>>]
 BusGet(b) == [val |-> b.c, bus |-> [p |-> <<>>, c |-> b.p]]
 BusEmpty(b) == b.p = <<>> /\ b.c = <<>>
 
-S0(prog) ==
-  [ cycle |-> 0, pc |-> 0, frem |-> 0, fcomplete |-> FALSE, fproc |-> FALSE,
+(* withBtb = FALSE: MVP-4.  withBtb = TRUE: MVP-5, which adds a 4-entry branch target buffer for  *)
+(* j/jal/jalr, a decode unit that stalls behind an undecided jump, and a fetch unit that can be    *)
+(* redirected (and told to clear its output latch) by the branch unit.                             *)
+BtbSize == 4
+BtbGet(b, pc) == {k \in 1 .. Len(b) : b[k].pc = pc}
+BtbAdd(b, pc, dest) ==
+  IF BtbGet(b, pc) # {} THEN [k \in 1 .. Len(b) |-> IF b[k].pc = pc THEN [pc |-> pc, dest |-> dest] ELSE b[k]]
+  ELSE IF Len(b) # BtbSize THEN Append(b, [pc |-> pc, dest |-> dest])
+  ELSE Append(Tail(b), [pc |-> pc, dest |-> dest])
+
+S0(prog, withBtb) ==
+  [ withBtb |-> withBtb, btb |-> <<>>, fclean |-> FALSE, dpend |-> FALSE,
+    cycle |-> 0, pc |-> 0, frem |-> 0, fcomplete |-> FALSE, fproc |-> FALSE,
     l1i |-> <<>>, l1d |-> <<>>, dbus |-> Bus0, ebus |-> Bus0, wbus |-> Bus0,
     eproc |-> FALSE, epend |-> FALSE, erem |-> 0, epc |-> -1, ehit |-> FALSE,
     wpend |-> FALSE, wcyc |-> 0, toCheck |-> FALSE, expect |-> 0,
@@ -39,7 +50,8 @@ DelPend(pw, regs) == LET dec == [r \in DOMAIN pw |-> pw[r] - (IF r \in regs THEN
                      IN [r \in {x \in DOMAIN dec : dec[x] > 0} |-> dec[r]]
 
 (* ---- fetch unit ---- *)
-Fetch(s, n) ==
+Fetch(s0, n) ==
+  LET s == IF s0.fclean THEN [s0 EXCEPT !.dbus = Bus0, !.fclean = FALSE] ELSE s0 IN
   IF s.fcomplete THEN s
   ELSE IF s.pc \div 4 >= n THEN [s EXCEPT !.fcomplete = TRUE]
   ELSE
@@ -54,11 +66,12 @@ Fetch(s, n) ==
                        !.fcomplete = ((s1.pc + 4) \div 4 >= n), !.dbus = BusAdd(@, s1.pc)]
 
 (* ---- decode unit ---- *)
-Decode(s) ==
-  IF ~BusCanAdd(s.ebus) THEN s
+Decode(s, prog) ==
+  IF s.dpend \/ ~BusCanAdd(s.ebus) THEN s
   ELSE LET g == BusGet(s.dbus) IN
        IF g.val = <<>> THEN [s EXCEPT !.dbus = g.bus]
-       ELSE [s EXCEPT !.dbus = g.bus, !.ebus = BusAdd(@, g.val[1])]
+       ELSE [s EXCEPT !.dbus = g.bus, !.ebus = BusAdd(@, g.val[1]),
+                      !.dpend = s.withBtb /\ prog[g.val[1] \div 4 + 1].op \in JumpOps]
 
 (* ---- execute unit.  Returns the new state and the outcome of the cycle ---- *)
 (* the instruction leaves the execute unit (eu.run) *)
@@ -78,9 +91,14 @@ RunIns(s, prog, fin) ==
                           !.pendW = AddPend(@, WriteRegs(i))]
         nextPc == IF s.k < Len(fin.ev) THEN 4 * fin.ev[s.k + 1].i ELSE fin.pc
         pcChange == ev.t
-    IN IF pcChange /\ s2.toCheck
-       THEN [st |-> [s2 EXCEPT !.toCheck = FALSE], flush |-> (s2.expect # nextPc), to |-> nextPc, ret |-> FALSE]
-       ELSE [st |-> s2, flush |-> FALSE, to |-> 0, ret |-> FALSE]
+        \* MVP-5 notifyJumpAddressResolved: remember the target, redirect the fetch unit, release the decode unit
+        s3 == IF s.withBtb /\ i.op \in JumpOps
+              THEN [s2 EXCEPT !.btb = BtbAdd(@, 4 * ev.i, nextPc), !.pc = nextPc, !.fcomplete = FALSE,
+                              !.fclean = TRUE, !.dpend = FALSE]
+              ELSE s2
+    IN IF pcChange /\ s3.toCheck
+       THEN [st |-> [s3 EXCEPT !.toCheck = FALSE], flush |-> (s3.expect # nextPc), to |-> nextPc, ret |-> FALSE]
+       ELSE [st |-> s3, flush |-> FALSE, to |-> 0, ret |-> FALSE]
 
 Idle(s) == [st |-> s, flush |-> FALSE, to |-> 0, ret |-> FALSE]
 
@@ -109,8 +127,15 @@ Execute(s, prog, fin) ==
               ELSE
               LET i == prog[s0.epc \div 4 + 1]
                   ev == fin.ev[s0.k]
-                  s1 == IF i.op \in JumpOps THEN [s0 EXCEPT !.toCheck = TRUE, !.expect = -1, !.erem = 0]
+                  hit == BtbGet(s0.btb, s0.epc)
+                  \* branch unit assertions (repeated on every retry of a stalled instruction, as in the code)
+                  s1 == IF i.op \in JumpOps
+                        THEN IF s0.withBtb /\ hit # {}
+                             THEN [s0 EXCEPT !.toCheck = FALSE, !.erem = 0, !.pc = s0.btb[CHOOSE k \in hit : \A j \in hit : k <= j].dest,
+                                             !.fcomplete = FALSE, !.fclean = TRUE]
+                             ELSE [s0 EXCEPT !.toCheck = TRUE, !.expect = -1, !.erem = 0]
                         ELSE IF i.op \in CondOps THEN [s0 EXCEPT !.toCheck = TRUE, !.expect = s0.epc + 4, !.erem = 0]
+                        ELSE IF s0.withBtb THEN [s0 EXCEPT !.toCheck = FALSE, !.erem = 0]
                         ELSE [s0 EXCEPT !.erem = 0]
               IN IF Hazard(s1, i) THEN Idle([s1 EXCEPT !.erem = 1])
                  ELSE IF i.op \in LoadOps
@@ -137,7 +162,7 @@ Complete(s) == s.fcomplete /\ ~s.eproc /\ ~s.wpend /\ BusEmpty(s.dbus) /\ BusEmp
 (* one iteration of CPU.Run's loop *)
 Cycle4(s, prog, fin) ==
   LET n == Len(prog)
-      a == Decode(Fetch([s EXCEPT !.cycle = @ + 1], n))
+      a == Decode(Fetch([s EXCEPT !.cycle = @ + 1], n), prog)
       x == Execute(a, prog, fin)
       b == Write(x.st)
   IN IF b.done THEN b
@@ -145,7 +170,8 @@ Cycle4(s, prog, fin) ==
      ELSE IF x.flush
           THEN LET d == Drain(b) IN
                [d EXCEPT !.pc = x.to, !.fproc = FALSE, !.fcomplete = FALSE,
-                         !.dbus = Bus0, !.ebus = Bus0, !.wbus = Bus0, !.pendW = [r \in {} |-> 0]]
+                         !.dbus = Bus0, !.ebus = Bus0, !.wbus = Bus0, !.pendW = [r \in {} |-> 0],
+                         !.dpend = FALSE, !.eproc = FALSE, !.erem = IF d.withBtb THEN 0 ELSE @]
      ELSE IF Complete(b) THEN [b EXCEPT !.done = TRUE]
      ELSE b
 
@@ -153,8 +179,10 @@ RECURSIVE Run4(_, _, _, _)
 Run4(s, prog, fin, fuel) == IF s.done \/ fuel = 0 THEN s ELSE Run4(Cycle4(s, prog, fin), prog, fin, fuel - 1)
 
 (* the cycle count returned by mvp4.CPU.Run: loop cycles + 309 per resident data line; -1 if the model gave up *)
-Cyc4(prog, fin) ==
+CycP(prog, fin, withBtb) ==
   IF fin.status \notin {"ret", "end"} \/ fin.misal THEN -1
-  ELSE LET s == Run4(S0(prog), prog, fin, 60000) IN
+  ELSE LET s == Run4(S0(prog, withBtb), prog, fin, 60000) IN
        IF ~s.done \/ s.bad THEN -1 ELSE s.cycle + LatMem * Len(s.l1d)
+Cyc4(prog, fin) == CycP(prog, fin, FALSE)
+Cyc5(prog, fin) == CycP(prog, fin, TRUE)
 =======================================================================
